@@ -650,12 +650,8 @@ class OPENQASMVisitor(Visitor):
             op = Operation(Reset(), location, params)
             self.op_list.append(op)
         else:
-            locations = [
-                CircuitLocation(i)
-                for i in range(self.qubit_regs[0][1])
-            ]
-            for location in locations:
-                op = Operation(Reset(), location, params)
+            for i in self.convert_qubit_ids_to_indices(qlist):
+                op = Operation(Reset(), CircuitLocation(i), params)
                 self.op_list.append(op)
 
     def convert_qubit_ids_to_indices(self, qlist: lark.Tree) -> list[int]:
